@@ -746,6 +746,48 @@ func entityUIDScalars(lo, hi rune, name string) *core.Family {
 	}
 }
 
+// thorough: edit distance 2 around a few short literals of each kind.
+func ed2Family() *core.Family {
+	type item struct {
+		kind, s string
+	}
+	var all []item
+	seen := map[string]bool{}
+	add := func(kind string, seeds []string, alphabet string) {
+		for _, s := range seeds {
+			for _, x := range ed1(s, alphabet) {
+				for _, y := range ed1(x, alphabet) {
+					if !seen[kind+y] {
+						seen[kind+y] = true
+						all = append(all, item{kind, y})
+					}
+				}
+			}
+		}
+	}
+	add("decimal", []string{"1.0", "-0.5", "12.3456"}, "09.-+")
+	add("duration", []string{"1d2h", "-1ms", "1h1m1s"}, "01dhms-")
+	add("datetime", []string{"2024-02-29", "2024-01-01T00:00:00Z", "2024-01-01T00:00:00.000+0100"}, "019-+TZ:.")
+	return &core.Family{
+		Name: "edit-distance-2",
+		Desc: fmt.Sprintf("every string within edit distance 2 of 9 short literals (%d strings)", len(all)),
+		N:    int64(len(all)),
+		Run: func(t *core.T, i int64) {
+			it := all[i]
+			switch it.kind {
+			case "decimal":
+				cmpParse(t, "decimal", it.s, ParseDecimal, implDecimal)
+			case "duration":
+				cmpParse(t, "duration", it.s, ParseDuration, implDuration)
+			default:
+				cmpParse(t, "datetime", it.s, ParseDatetime, implDatetime)
+			}
+			t.Nontrivial()
+			t.Sample(it.s)
+		},
+	}
+}
+
 func Check() *core.Check {
 	return &core.Check{
 		ID:    "C12",
@@ -760,13 +802,10 @@ func Check() *core.Check {
 		Families: func(tier string) []*core.Family {
 			th := tier == "thorough"
 			fams := []*core.Family{longFamily(), decimalSmall(), decimalBoundary(), decimalNeighbourhood(), newDecimalFamily(), floatFamily(),
-				datetimeGrid(th), datetimeRender(th), datetimeNeighbourhood(), durationValues(), durationSubsets(), durationNeighbourhood(), ipFamily()}
-			if th {
-				fams = append(fams, entityUIDScalars(0, 0x10FFFF, "entityuid-all-scalars"))
-			} else {
-				fams = append(fams, entityUIDScalars(0, 0x2FFF, "entityuid-U+0000-2FFF"), entityUIDScalars(0xD000, 0x10FFF, "entityuid-bmp-end"), entityUIDScalars(0xE0000, 0xE0FFF, "entityuid-tags"), entityUIDScalars(0x10F000, 0x10FFFF, "entityuid-last"))
-			}
-			return fams
+				datetimeGrid(true), datetimeRender(true), datetimeNeighbourhood(), durationValues(), durationSubsets(), durationNeighbourhood(), ipFamily(),
+				entityUIDScalars(0, 0x10FFFF, "entityuid-all-scalars")}
+			_ = th
+			return append(fams, ed2Family())
 		},
 	}
 }
